@@ -47,6 +47,32 @@ def deep_strip(v):
     return v
 
 
+def unloop(v):
+    """replace loop-carried placeholders by their value at loop entry (provenance view)"""
+    if not isinstance(v, tuple) or not v:
+        return v
+    t = v[0]
+    if t == "loopvar":
+        return unloop(v[3])
+    if t == "app":
+        return ("app", v[1], tuple(unloop(x) for x in v[2]))
+    if t == "adt":
+        return ("adt", v[1], v[2], tuple((k, unloop(x)) for k, x in v[3]))
+    if t == "tuple":
+        return ("tuple", tuple(unloop(x) for x in v[1]))
+    if t in ("field", "downcast"):
+        return (t, unloop(v[1]), v[2])
+    if t == "deref":
+        return ("deref", unloop(v[1]))
+    if t == "index":
+        return ("index", unloop(v[1]), unloop(v[2]))
+    if t == "lin":
+        return symx.from_lin(v[1], {unloop(a): c for a, c in v[2]})
+    if t == "closure":
+        return ("closure", v[1], tuple(unloop(x) for x in v[2]))
+    return v
+
+
 def is_call(v, name):
     return isinstance(v, tuple) and v and v[0] == "app" and fn(v) == name
 
